@@ -5,3 +5,4 @@ open GoSQLXModel
 #print axioms Props.C09.gen_pool_ok
 #print axioms Props.C09.gen_covers
 #print axioms Props.C09.pooled_nodes_clean
+#print axioms Props.C09.gen_pool_put_matches_get
